@@ -156,7 +156,7 @@ def run(ck):
     ck.coq_build("C16")
     ck.coq_props("LLGoV.C16.Props", "theories/C16/Props.v")
 
-    n, nd = {"quick": (700, 500), "thorough": (9000, 6000)}.get(ck.tier, (700, 500))
+    n, nd = {"quick": (500, 400), "thorough": (9000, 6000)}.get(ck.tier, (500, 400))
     trees = os.path.join(ck.work, "trees")
     os.makedirs(trees, exist_ok=True)
     out = os.path.join(ck.work, "embed.jsonl")
